@@ -19,6 +19,10 @@ def program_sets(tier):
         ([[T(1, body=shared + b"one")], [T(2, body=shared + b"two")]], "no_takeover"),
         ([[T(1, body=shared + b"one")], [T(2, comp=False, body=shared)]], "takeover"),
         ([[T(1, body=shared + b"one")], [PO]], "takeover"),
+        # one thread in send_text, the other in send_binary, with content in common: the two methods share one compression
+        # context, so their order of compression has to be their order on the wire too
+        ([[T(1, body=shared + b"one")], [("send", "binary", shared + b"two", True, 2)]], "takeover"),
+        ([[("send", "binary", shared + b"one", True, 1), T(3, body=shared + b"three")], [("send", "binary", shared + b"two", True, 2)]], "takeover"),
         # payloads beyond the 16-bit length form (a send is one frame, however large)
         ([[T(1, comp=False, body=bytes(bytearray(32 + (i * 7 + 3) % 95 for i in range(70000))))], [T(2, comp=False, body=b"small")]], None),
         ([[("send", "binary", bytes(bytearray((i * 13 + 1) % 253 for i in range(66000))), False, 1)], [T(2)], ], None),
